@@ -126,15 +126,34 @@ def install():
     global _installed
     if _installed:
         return
+    # machine-dependent knobs are seeded configuration too; set before the library is imported (it may read them at import)
+    cpus = os.environ.get('VERIF_CPU_COUNT')
+    if cpus:
+        os.cpu_count = lambda: int(cpus)
     import_library()
     import pyg_base._dates as D
     import pyg_base._decorators as DEC
     import dateutil.parser._parser as P
     shim = _DatetimeModuleShim()
+    tshim = _TimeModuleShim()
     D.datetime = shim
     DEC.datetime = shim
     P.datetime = shim
-    DEC.time = _TimeModuleShim()
+    DEC.time = tshim
+    # every module of the library that holds the datetime / time MODULE under its usual name reads the simulated clock
+    # (a change to the library that starts reading the clock somewhere else must not escape the seam)
+    import time as _t
+    for name, m in list(sys.modules.items()):
+        if name.startswith('pyg_base') and m is not None:
+            if getattr(m, 'datetime', None) is _real:
+                m.datetime = shim
+            if getattr(m, 'time', None) is _t:
+                m.time = tshim
+    # ... and so does anything that imports time afterwards: time.time() itself follows the simulated clock.  The harness
+    # never calls it (it uses time.monotonic for its wall caps), asyncio loops use monotonic clocks of their own.
+    _t.time = _TimeModuleShim.time
+    _t.time_ns = lambda: int(_TimeModuleShim.time() * 1e9)
+
     now = SimDateTime.now
     # defaults captured at definition time
     D.dt.__kwdefaults__['none'] = now
